@@ -265,7 +265,15 @@ pub fn run_history_property<H: HB>(prop: &'static str, tier: Tier) -> Outcome {
     if prop == "C01" || prop == "C02" {
         // the other kind is reachable through Convert; roots only of the property's kind
     }
-    run_closed::<H>(&mut out, &format!("E1 closed ({k} items x {m} priorities)"), &cfg, &no_probes);
+    let uni0 = cfg.universe();
+    let mk0 = |ex: &mut Explorer<H>| {
+        if prop == "C11" {
+            for p in crate::probes::all_probes::<H>(prop, &uni0) {
+                ex.probes.push(p);
+            }
+        }
+    };
+    run_closed::<H>(&mut out, &format!("E1 closed ({k} items x {m} priorities)"), &cfg, &mk0);
     if !out.violations.is_empty() {
         return out;
     }
